@@ -130,6 +130,12 @@ func (pr *PropRun) writeReport(eng *Engine, ro reportOpts) int {
 	knownHit := map[string]bool{}
 	replayDir := filepath.Join(ro.verif, "replay", "out")
 	os.MkdirAll(replayDir, 0755)
+	// replay files of earlier runs of this property describe another tree: remove them
+	if old, err := filepath.Glob(filepath.Join(replayDir, sanitizeFile(ro.prop+".")+"*.json")); err == nil {
+		for _, f := range old {
+			os.Remove(f)
+		}
+	}
 	var vioLines []string
 	for _, r := range pr.Results {
 		ef := evFunc{Func: shortName(r.Func), Contract: strings.TrimPrefix(r.Contract, "/repo/"), Error: r.Error, Callees: r.Callees, Warnings: r.Warnings}
